@@ -59,7 +59,7 @@ def main(argv=None):
         still = [o for o in R.obs if o.key() in keys and o.verdict == "violation"]
         print(f"replay: {len(still)}/{len(keys)} recorded violations still reported")
         return 1 if still else 0
-    code, R = run_property(a.prop, a.tier)
+    code, R = run_property(a.prop, a.tier, write=not os.environ.get("SA_NO_WRITE"))
     if a.tier == "thorough" and code == 0:
         from .selftest import run_selftest
 
